@@ -136,6 +136,9 @@ func c04Slice(c *Ctx, k int) {
 		if !c.Thorough() {
 			n = c.R.Range(1000, 4000)
 		}
+		if k%8 == 2 { // more words than 16 bits can index
+			n = c.R.Range(66000, 70000)
+		}
 		words = make([]string, n)
 		for i := range words {
 			words[i] = fmt.Sprintf("w%dx%s", i, string(rune('a'+i%26)))
@@ -190,7 +193,7 @@ func c04Slice(c *Ctx, k int) {
 		if int(st.N) != size && int(st.N) != L && st.N != 2 {
 			continue
 		}
-		if st.N > 40000 {
+		if st.N > 100000 {
 			continue
 		}
 		outs := map[string]bool{}
